@@ -5,6 +5,7 @@
 import NPModel.Refine.Repack
 import NPModel.Spec.Frame
 import NPModel.Refine.Repacked
+import NPModel.Refine.DropnaNested
 namespace NP.C12
 open NP
 variable {α : Type}
@@ -115,5 +116,33 @@ theorem dropna_filters_rows_of_the_frame (F : NFrame α) (nest : String)
   refine ⟨col, h1, h2, ?_⟩
   rw [h2]
   simp [repackedRows, hmasks.length_eq, hn]
+
+/-- **`dropna` on a nested layer, end to end** (`NP.NFrame.dropnaNested`, the model checked against
+    the code): for every frame whose nested column `nest` is stored cleanly (any chunking and
+    offsets), every `how` / `thresh`, and every `subset` naming fields of that column (or none),
+    the call succeeds and replaces only that column; record `j` of the flat view is kept iff
+    `keepRecord` says so of its cells in the inspected fields (`dropna_keeps_by_record`); row `i` of
+    the result holds exactly the kept records of row `i` in their original order, every field
+    filtered alike; a row left without records is missing; no frame row is added, dropped or
+    moved. -/
+theorem dropna_nested_end_to_end (isNull : α → Bool) (F : NFrame α) (nest : String) (c : PCol α)
+    (hc : F.nest? nest = .ok c) (hclean : c.Clean) (hch : c.chunks ≠ []) (hidx : F.index.length = c.len)
+    (how : How) (thresh : Option Nat) (subset : Option (List String))
+    (hsub : ∀ fs, subset = some fs → ∀ f ∈ fs, c.ty.any (·.1 == f) = true) :
+    let lens := c.rows.map Row.len
+    let flat := ordFlat (colLists c) lens
+    let keep := dropnaKeep isNull how thresh (inspectedCols flat subset) flat.len
+    let masks := Spec.splitBy lens keep
+    ∃ col, F.dropnaNested isNull nest how thresh subset = .ok (F.setCol nest (.nest col)) ∧
+      col.rows = repackedRows ((colLists c).map fun f => (f.1, f.2.1, filterRowsBy masks f.2.2))
+        (masks.map fun m => (m.filter id).length) ∧
+      col.rows.length = F.index.length ∧ masks.flatten = keep ∧ masks.map List.length = lens :=
+  dropnaNested_rows isNull F nest c hc hclean hch hidx how thresh subset hsub
+
+/-- the verdict is per record: record `j` is kept iff `keepRecord` accepts its own cells -/
+theorem dropna_keeps_by_record (isNull : α → Bool) (how : How) (thresh : Option Nat)
+    (cols : List (String × String × List α)) (n j : Nat) (hj : j < n) :
+    (dropnaKeep isNull how thresh cols n)[j]? = some (keepRecord isNull how thresh (recordCells cols j)) :=
+  dropnaKeep_at isNull how thresh cols n j hj
 
 end NP.C12
